@@ -2,7 +2,7 @@
 From Coq.Strings Require Import Byte String.
 From Coq Require Import List NArith ZArith Bool.
 Import ListNotations.
-From V Require Import lib.Bytes lib.SrcPos spec.PosOf model.ParseInput.
+From V Require Import lib.Bytes lib.SrcPos spec.PosOf model.ParseInput model.GoExprScan.
 Require Extraction.
 Require Import ExtrOcamlBasic.
 
@@ -84,6 +84,25 @@ Fixpoint run_ops (pi : input) (ops : list bytes) : list bytes :=
 Definition zpair (r : option (Z * Z)) : list bytes :=
   match r with None => [bs "none"] | Some (s, e) => [zdec s; zdec e] end.
 
+(* token streams of go/scanner: triples position, class, length of the token string *)
+Definition gclass (s : bytes) : gtok :=
+  if is s "eof" then GEof else if is s "func" then GFunc
+  else if is s "o0" then GOpen 0 else if is s "o1" then GOpen 1 else if is s "o2" then GOpen 2
+  else if is s "c0" then GClose 0 else if is s "c1" then GClose 1 else if is s "c2" then GClose 2
+  else if is s "ident" then GIdent else if is s "period" then GPeriod
+  else if is s "semi" then GSemi else if is s "illegal" then GIllegal else GOther.
+Fixpoint gtoks (a : list bytes) : list gtoken :=
+  match a with
+  | p :: c :: l :: r => (znum p, gclass c, num l) :: gtoks r
+  | _ => []
+  end.
+Definition scan_out (r : option (option (Z * Z))) : list bytes :=
+  match r with
+  | None => [bs "none"]
+  | Some None => [bs "error"]
+  | Some (Some (s, e)) => [zdec s; zdec e]
+  end.
+
 Definition dispatch (f : bytes) (a : list bytes) : list bytes :=
   if is f "posat" then                                   (* src, index -> model PositionAt and spec pos_of *)
     let s := arg 0 a in let i := num (arg 1 a) in
@@ -135,6 +154,12 @@ Definition dispatch (f : bytes) (a : list bytes) : list bytes :=
     | Some None => [bs "error"]
     | Some (Some e) => [bs "ok"; e]
     end
+  else if is f "templ_expr" then                         (* len(src), tokens: TemplExpression since 906dd9d *)
+    scan_out (templ_expression (gtoks (tl a)) (num (arg 0 a)))
+  else if is f "templ_expr_unclamped" then
+    scan_out (templ_expression_unclamped (gtoks (tl a)))
+  else if is f "expr_scan" then                          (* len(src), tokens: Expression *)
+    scan_out (expression_scan (gtoks (tl a)))
   else [bs "?"].
 
 Extraction "model.ml" dispatch.
